@@ -5,13 +5,13 @@ go 1.23
 toolchain go1.23.5
 
 require (
+	github.com/evolbioinfo/goalign v0.3.7-0.20230906113011-fcecb09f9d43
 	github.com/evolbioinfo/gotree v0.0.0
 	pgregory.net/rapid v1.3.0
 )
 
 require (
 	github.com/armon/go-radix v1.0.0 // indirect
-	github.com/evolbioinfo/goalign v0.3.7-0.20230906113011-fcecb09f9d43 // indirect
 	github.com/fredericlemoine/bitset v1.2.0 // indirect
 	github.com/fredericlemoine/gostats v0.1.1 // indirect
 	github.com/jlaffaye/ftp v0.0.0-20210307004419-5d4190119067 // indirect
